@@ -44,6 +44,19 @@ Lemma refuted_proxy_across_deletion :
              (Via 0 (SetV Item ["b"] "x" (Leaf (VInt 2))))) = OErr EType.
 Proof. vm_compute. split; reflexivity. Qed.
 
+(** F-C06g: update(<nested proxy>) iterates the proxy's KEYS as if they were pairs *)
+Lemma refuted_update_from_proxy :
+  model_meets_spec [] (init_of (Node [("a", Node [("x", Leaf (VInt 1))]); ("b", Node [("y", Leaf (VInt 2))])]))
+    [Plain (UpdateProxy Item ["a"] ["b"])] = false.
+Proof. vm_compute. reflexivity. Qed.
+
+(** F-C06h: an edit through the raw sub-dict handed out by get() is lost at the
+    next re-merge *)
+Lemma refuted_raw_dict_edit :
+  model_meets_spec [] (init_of (Node [("a", Node [("x", Leaf (VInt 1))])]))
+    [Plain (RawSet Item [] "a" "z" (Leaf (VInt 5))); Plain (SetV Item [] "k" (Leaf (VInt 1)))] = false.
+Proof. vm_compute. reflexivity. Qed.
+
 (** * Bounded sweep (a test) *)
 Definition sweep_alphabet : list sop :=
   map Plain
